@@ -28,7 +28,13 @@ def cases(rnd, n):
                 s = gen_strings.mutate(rnd, s)
         else:
             s = gen_strings.raw(rnd)
+        if rnd.random() < 0.12:
+            # multi-line patterns whose error (if any) is reported at the very end, after a line break
+            s = rnd.choice(['', 'h1,\n', 'a\r\n'] ) + s + rnd.choice(['\n', ',\n', ' >\n', ':is(\n', '\r\n', '\n\n', ',\r', '[a\n', ' +\f\n'])
         cu = gen_strings.custom_map(rnd) if rnd.random() < 0.4 else None
+        if cu and rnd.random() < 0.15:
+            k0 = sorted(cu)[0]
+            cu[k0] = cu[k0] + rnd.choice([',\n', '\n', ' >\n'])
         out.append((s, cu))
     return out
 
@@ -38,7 +44,7 @@ def run(tier, seed):
     ck.proof = lib.proof_step('props/C06.v', CONE)
     ck.broken += ck.proof['broken']
     if not ck.proof['driver_ok']:
-        return ck.finish(rule='driver unavailable')
+        ck.notes['driver'] = 'unavailable: model-side runs skipped, searching with the implementation-side oracles only'
     cs = cases(ck.rnd, 2500 if tier == 'quick' else 80000)
     recs = e2.run(cs)
     nb = 0
